@@ -133,13 +133,51 @@ def first_declaration_wins(ctx, fi):
            % bad, nontrivial=bool(bad))
 
 
+def decoration_forms(prog):
+    """How @dbusMethod records the interface on the function it decorates:
+    a list of (attribute, index-or-None) read from the decorator itself -
+    `method.<attribute> = interfaceName` gives (attribute, None),
+    `method.<attribute> = (interfaceName, ...)` gives (attribute, 0)."""
+    fi = prog.func('objects.dbusMethod')
+    ps = fi.params()
+    if not ps:
+        raise AnalysisError('objects.dbusMethod takes no interface name')
+    iface = ps[0]
+    forms = []
+    for n in ast.walk(fi.node):
+        tgt = val = None
+        if isinstance(n, ast.Assign) and len(n.targets) == 1 and \
+                isinstance(n.targets[0], ast.Attribute) and \
+                isinstance(n.targets[0].value, ast.Name):
+            tgt, val = n.targets[0].attr, n.value
+        elif isinstance(n, ast.Call) and isinstance(n.func, ast.Name) and \
+                n.func.id == 'setattr' and len(n.args) == 3 and \
+                isinstance(n.args[1], ast.Constant):
+            tgt, val = n.args[1].value, n.args[2]
+        if tgt is None:
+            continue
+        if isinstance(val, ast.Name) and val.id == iface:
+            forms.append((tgt, None))
+        elif isinstance(val, (ast.Tuple, ast.List)):
+            for i, e in enumerate(val.elts):
+                if isinstance(e, ast.Name) and e.id == iface:
+                    forms.append((tgt, i))
+    if not forms:
+        raise AnalysisError('objects.dbusMethod: the attribute that records '
+                            'the interface was not found (anchor changed)')
+    return forms
+
+
 def by_name_method_for_its_interface(ctx, rule):
     """executeMethod finds `dbus_<member>` by name first.  When that function
-    was decorated for an interface (`_dbusInterface`), it answers calls of
-    THAT interface only: on every path that runs it and knows it is decorated,
-    the decoration was compared equal to the interface called."""
+    was decorated for an interface (the attribute @dbusMethod stores, read
+    from the decorator), it answers calls of THAT interface only: every path
+    that runs it either knows it is not decorated or has compared the
+    recorded interface equal to the interface called."""
     prog = ctx.prog
     fi = prog.func('objects.DBusObject.executeMethod')
+    forms = decoration_forms(prog)
+    attrs = {a for a, _ in forms}
     n = 0
     for p in Interp(prog, exc_edges=False).run(fi):
         if p.outcome != 'return' or kind(p.value) != 'call':
@@ -147,30 +185,114 @@ def by_name_method_for_its_interface(ctx, rule):
         g = p.value[2]
         if not (kind(g) == 'call' and g[1] == 'getattr'):
             continue            # the decorated lookup was used
-        deco = ('attr', g, '_dbusInterface')
-        knows = any(kind(c) == 'call' and c[1] == 'hasattr' and pol and
-                    c[3] and c[3][0] == g and
-                    c[3][1:] == (C('_dbusInterface'),)
-                    for c, pol in p.cond)
-        if not knows:
-            continue
         n += 1
-        same = any(kind(c) == 'cmp' and deco in (c[2], c[3]) and
+
+        def recorded(t):
+            """Is t the interface recorded on g (or, through a default, the
+            interface called when g is not decorated)?"""
+            for a, i in forms:
+                base = [('attr', g, a)]
+                base += [x for x in _subterms(t) if kind(x) == 'call' and
+                         x[1] == 'getattr' and len(x[3]) == 3 and
+                         x[3][0] == g and x[3][1] == C(a)]
+                for b_ in base:
+                    if i is None and t == b_:
+                        return True
+                    if i is not None and t == ('sub', b_, C(i)):
+                        return True
+            return False
+        undecorated = any(
+            kind(c) == 'call' and c[1] == 'hasattr' and not pol and
+            len(c[3]) == 2 and c[3][0] == g and is_const(c[3][1]) and
+            c[3][1][1] in attrs for c, pol in p.cond)
+        same = any(kind(c) == 'cmp' and
+                   (recorded(c[2]) or recorded(c[3])) and
                    ((c[1] == '!=' and not pol) or (c[1] == '==' and pol))
                    for c, pol in p.cond)
-        ctx.ob(rule, fi.qualname, 'by-name-method-for-its-interface', same,
-               'a method found as dbus_<member> that is decorated for an '
-               'interface is run although its interface was not found equal '
-               'to the one called [%s]: a member of the same name on another '
-               'interface runs the wrong implementation' % '; '.join(
-                   '%s is %s' % (term_str(c)[-40:], pol)
+        ctx.ob(rule, fi.qualname, 'by-name-method-for-its-interface',
+               undecorated or same,
+               'a method found as dbus_<member> is run although it may be '
+               'decorated for another interface: its recorded interface '
+               '(%s, as @dbusMethod stores it) was not found equal to the '
+               'one called [%s]: a member of the same name on another '
+               'interface runs the wrong implementation' % (
+                   ' / '.join('.%s%s' % (a, '' if i is None else '[%d]' % i)
+                              for a, i in forms),
+                   '; '.join('%s is %s' % (term_str(c)[-60:], pol)
+                             for c, pol in p.cond[:3])))
+    if n == 0:
+        raise AnalysisError('executeMethod: no path runs a method found by '
+                            'name (anchor changed)')
+
+
+def _subterms(t):
+    out, todo = [], [t]
+    while todo:
+        x = todo.pop()
+        if isinstance(x, tuple):
+            out.append(x)
+            todo.extend(y for y in x if isinstance(y, tuple))
+    return out
+
+
+def _silent_passthrough(prog, fi, name):
+    """Is the nested function `name` of fi a callback that sends nothing,
+    calls nothing that could (only attribute arithmetic and logging), and
+    returns the value it was given on every path?"""
+    nf = fi.nested.get(name) if hasattr(fi, 'nested') else None
+    if nf is None:
+        return False
+    node = nf.node
+    if not node.args.args:
+        return False
+    p0 = node.args.args[0].arg
+    for n in ast.walk(node):
+        if isinstance(n, ast.Call):
+            f = n.func
+            nm = f.attr if isinstance(f, ast.Attribute) else (
+                f.id if isinstance(f, ast.Name) else '')
+            if nm not in ('msg', 'err', 'debug', 'info', 'warning', 'len',
+                          'repr', 'str'):
+                return False
+        if isinstance(n, (ast.Raise, ast.Yield, ast.YieldFrom, ast.Await)):
+            return False
+    rets = [n for n in ast.walk(node) if isinstance(n, ast.Return)]
+    if not rets or not isinstance(node.body[-1], ast.Return):
+        return False
+    return all(isinstance(r.value, ast.Name) and r.value.id == p0
+               for r in rets) and not any(
+        isinstance(n, ast.Name) and n.id == p0 and
+        isinstance(n.ctx, ast.Store) for n in ast.walk(node))
+
+
+def received_call_is_dispatched(ctx, rule):
+    """Every method call the connection receives is handed to the object
+    handler: a path of methodCallReceived that returns without doing so
+    answers nothing - the caller waits for ever."""
+    prog = ctx.prog
+    fi = prog.func('client.DBusClientConnection.methodCallReceived')
+    m = ('param', fi.params()[1])
+    n = 0
+    for p in Interp(prog, exc_edges=False).run(fi):
+        if p.outcome == 'raise':
+            continue
+        n += 1
+        ok = any(str(c[1] or '').endswith('handleMethodCallMessage') or (
+            kind(c[2]) in ('attr', 'bound') and
+            str(c[2][2]).endswith('handleMethodCallMessage'))
+            and c[3][:1] == (m,) for c in p.calls())
+        ctx.ob(rule, fi.qualname, 'received-call-is-dispatched', ok,
+               'a received method call is dropped without being handed to '
+               'the dispatcher [%s]: no reply of any kind is sent and the '
+               'implementation does not run' % '; '.join(
+                   '%s is %s' % (term_str(c)[:60], pol)
                    for c, pol in p.cond[:3]))
     if n == 0:
-        raise AnalysisError('executeMethod: no path runs a decorated method '
-                            'found by name (anchor changed)')
+        raise AnalysisError('methodCallReceived: no path')
 
 
 def run(ctx):
+    received_call_is_dispatched(ctx, 'C10.D1')
     prog = ctx.prog
     fi = prog.func(Q)
     msg = ('param', fi.params()[1])
@@ -311,9 +433,13 @@ def run(ctx):
                             names.append((r[2][2], a[1].split('.')[-1]))
                         elif kind(a) == 'bound' and a[2] in cb_args:
                             names.append((r[2][2], a[2].split('.')[-1]))
+                # callbacks that neither send anything nor change what
+                # they are given (bookkeeping, logging) do not take part
+                core = [x for x in names if not _silent_passthrough(
+                    prog, fi, x[1])]
                 ok = send_reply is not None and send_error is not None \
-                    and names == [('addCallback', send_reply.node.name),
-                                  ('addErrback', send_error.node.name)]
+                    and core == [('addCallback', send_reply.node.name),
+                                 ('addErrback', send_error.node.name)]
                 ctx.ob('C10.D3', Q, 'callback-then-errback', ok,
                        'a call expecting a reply must register send_reply '
                        'as callback and then send_error as errback (so that '
@@ -324,9 +450,13 @@ def run(ctx):
                        'the reply callbacks must be attached to the '
                        'Deferred of this dispatch', nontrivial=False)
             else:
+                loud = [r for r in regs if not all(
+                    kind(a) == 'funcref' and _silent_passthrough(
+                        prog, fi, a[1].split('.')[-1]) for a in r[3])]
                 ctx.ob('C10.D1', Q, 'no-reply-registers-nothing',
-                       not regs, 'a call flagged as expecting no reply must '
-                       'not be answered: nothing may be registered')
+                       not loud, 'a call flagged as expecting no reply must '
+                       'not be answered: nothing that sends may be '
+                       'registered')
         else:
             n_early += 1
             ctx.ob('C10.D1', Q, 'early-exit-one-reply:' + tag,
@@ -347,6 +477,24 @@ def run(ctx):
                         ctx.ob('C10.D4', Q, 'error-name:' + tag,
                                en == C(want), 'this exit must answer %s; '
                                'answers %s' % (want, term_str(en)[:80]))
+                    else:
+                        # "... if and only if that path is exported, the
+                        # member exists on that interface and the argument
+                        # signature matches; otherwise the reply is
+                        # UnknownObject, UnknownMethod or InvalidArgs"
+                        three = (spec.ERR_UNKNOWN_OBJECT,
+                                 spec.ERR_UNKNOWN_METHOD,
+                                 spec.ERR_INVALID_ARGS)
+                        ctx.ob('C10.D4', Q, 'refusal-has-one-of-three-reasons'
+                               ':' + tag, not is_const(en) or en[1] in three,
+                               'the dispatcher itself refuses a call with %s '
+                               '- none of the three reasons the property '
+                               'admits (object not exported, no such member, '
+                               'wrong signature) [%s]: a valid call does not '
+                               'run'
+                               % (term_str(en)[:70], '; '.join(
+                                   '%s is %s' % (term_str(c)[:50], pol)
+                                   for c, pol in p.cond[-3:])))
     if n_dispatch == 0:
         raise AnalysisError('no dispatch path found in %s' % Q)
     if n_early < 4:
